@@ -1,7 +1,7 @@
 #!/bin/sh
-# tools/seed_confirm.sh <ID> [name]  -- confirm a sub-agent's seeded change in its scratch worktree /tmp/wt-<ID>
+# tools/seed_confirm.sh <ID> [name] [worktree]  -- confirm a sub-agent's seeded change in its scratch worktree /tmp/wt-<ID>
 # and store it as /verif/seeded/<name>/ (patch.diff, demo, confirm.log). Never touches /repo's files.
-ID="$1"; NAME="${2:-$1}"; WT=/tmp/wt-$ID; OUT=/verif/seeded/$NAME
+ID="$1"; NAME="${2:-$1}"; WT="${3:-/tmp/wt-$ID}"; OUT=/verif/seeded/$NAME
 mkdir -p "$OUT"
 git -C "$WT" diff -- xdeps > "$OUT/patch.diff"
 cp "$WT"/demo_*.py "$OUT"/ 2>/dev/null
